@@ -147,7 +147,7 @@ impl Property for C15 {
     }
     fn cases(&self, tier: Tier) -> u32 {
         match tier {
-            Tier::Quick => 4_000,
+            Tier::Quick => 10_000,
             Tier::Thorough => 100_000,
         }
     }
